@@ -210,6 +210,14 @@ def case_oracle(case):
             if got_users.get(key, 0) != w:
                 kinds = sorted({k for p, _, c, k in E
                                 if (eqclass(c), eqclass(p)) == key}) or [klass]
+                if set(kinds) == {"derived-shape"} and not got_users.get(
+                        key, 0) and not got_preds.get(key, 0):
+                    # a computed shape is no field of the node (Roll,
+                    # AxisPermutation): both relations leave the edge out,
+                    # which keeps them converse to each other
+                    info["derived_shape_in_neither"] = info.get(
+                        "derived_shape_in_neither", 0) + 1
+                    continue
                 if set(kinds) <= DEFERRED_CLASSES and got_users.get(
                         key, 0) == 0 and got_preds.get(key, 0) == want.get(
                             key, 0):
@@ -231,6 +239,9 @@ def case_oracle(case):
             kinds = sorted({k for p, _, c, k in E
                             if (eqclass(c), eqclass(p)) == key}) or [
                                 "no-such-edge"]
+            if kinds == ["derived-shape"] and not got_preds.get(key, 0) \
+                    and not got_users.get(key, 0):
+                continue
             if got_preds.get(key, 0) != want.get(key, 0):
                 return Failure("predecessors-disagree-with-graph",
                                f"edge class {kinds}: predecessor getter lists "
